@@ -7,6 +7,7 @@ import plistlib
 import re
 from typing import Any, Dict, Mapping, Union
 
+from pyatv import exceptions
 from pyatv.auth.hap_pairing import (
     TRANSIENT_CREDENTIALS,
     AuthenticationType,
@@ -297,6 +298,9 @@ def dbfs_to_pct(level: float) -> float:
     # muted to be a bit defensive
     if level < DBFS_MIN:
         return PERCENTAGE_MIN
+
+    if level > DBFS_MAX:
+        raise exceptions.ProtocolError(f"volume {level} dBFS is out of range")
 
     # Map dBFS to percentage
     return map_range(level, DBFS_MIN, DBFS_MAX, PERCENTAGE_MIN, PERCENTAGE_MAX)
